@@ -3,7 +3,7 @@ from .. import sym
 from ..evalfn import SELF
 from ..sym import canon
 from . import c06, core_rules
-from .common import ALGOS, BACKTEST, CORE, G, Roles, fld, short
+from .common import over_all_children, ALGOS, BACKTEST, CORE, G, Roles, fld, short
 from .core_rules import bound_args, equal
 
 
@@ -49,7 +49,7 @@ def strategy_transact(chk):
     ok = False
     for e in spread:
         a = e.args[0] if e.args else None
-        ok = a is not None and equal(a, ("*", q, ("fld", e.recv, R.WEIGHT, 0))) and e.recv[1][0] == "fld" and e.recv[1][2] == "_childrenv" and not e.loops[-1].filter
+        ok = a is not None and equal(a, ("*", q, ("fld", e.recv, R.WEIGHT, 0))) and over_all_children(e.recv[1], SELF) and not e.loops[-1].filter
     chk.ob("C17.R5", ok, CORE, host, "transact-spread-by-weight", "a notional transacted on a strategy is spread over its children in proportion to their weights", where=S.fn.where)
     direct = [e for e in S.calls("transact") if e.recv is not None and e.recv[0] == "sub"]
     ok = bool(direct) and direct[0].args and canon(direct[0].args[0]) == canon(q)
